@@ -16,6 +16,15 @@ def items(ctx):
     for n, shape in ((1, [1]), (3, [3]), (4, [2, 2])):
         for t in itertools.product((0, 1, 2, 4), repeat=n):
             arrays.append((list(t), shape))
+    if not q:
+        # thorough: a wider alphabet, longer arrays and a 2x3 matrix (seeded samples)
+        for t in itertools.product((0, 1, 2, 3, 4, 8), repeat=3):
+            if set(t) - {0, 1, 2, 4}:
+                arrays.append((list(t), [3]))
+        for _ in range(400):
+            n = rng.choice((2, 5, 6))
+            t = [rng.choice((0, 1, 2, 3, 4, 6, 8)) for _k in range(n)]
+            arrays.append((t, [2, 3] if n == 6 and rng.random() < 0.5 else [n]))
     for (D, shape) in arrays:
         if q and len(D) > 1 and rng.random() > 0.35:
             continue
